@@ -73,6 +73,7 @@ type script struct {
 	gSer   uint16 // terminal serial of the good session
 	gPlat  uint16 // platform serial the next answer must carry
 	gFirst []byte // header source (first message) of the attachment good session: bcd
+	expK   map[int]string // what must happen to a hostile connection (prefix of its status), where the property says so
 }
 
 func (s *script) request() string {
@@ -91,6 +92,8 @@ func (s *script) D(k int, b []byte) {
 		s.toks = append(s.toks, fmt.Sprintf("D%d:%s", k, Hx(b)))
 	}
 }
+// Dwhole: one write of any length (the model side cuts it into reads of 1023 bytes as the reader does)
+func (s *script) Dwhole(k int, b []byte) { s.toks = append(s.toks, fmt.Sprintf("D%d:%s", k, Hx(b))) }
 func (s *script) O(k int)      { s.toks = append(s.toks, fmt.Sprintf("O%d", k)) }
 func (s *script) F(k int)      { s.toks = append(s.toks, fmt.Sprintf("F%d", k)) }
 func (s *script) R(k int)      { s.toks = append(s.toks, fmt.Sprintf("R%d", k)) }
@@ -196,6 +199,14 @@ func run(c *Ctx, s *script) {
 		c.Violate(Violation{Signature: sig + "/good-session/" + s.class,
 			What:  "the well-behaved session was not served correctly while another connection misbehaved",
 			Input: req, Observed: Trunc("g="+got, 1500), Required: Trunc("g="+want, 1500)})
+	}
+	for k, want := range s.expK {
+		if got := field(ans, fmt.Sprintf("k%d", k)); !strings.HasPrefix(got, want) {
+			c.Violate(Violation{Signature: sig + "/registry/" + s.class,
+				What:  "a connection presenting the key of an established session was not refused: the session lost its registration to an earlier refused claimant (it would no longer receive platform commands and can be taken over)",
+				Input: req, Observed: fmt.Sprintf("k%d=%s", k, Trunc(got, 300)), Required: fmt.Sprintf("k%d=%s (every claimant of a key held by a live session is ended, the session stays registered)", k, want)})
+			break
+		}
 	}
 	if got := field(ans, "a"); s.expA != "" && got != s.expA {
 		c.Violate(Violation{Signature: sig + "/accept/" + s.class,
@@ -403,17 +414,97 @@ func gen808(c *Ctx, pa string, budget time.Duration) {
 			}
 		}
 	}
-	// (d) the good session's own phone number on another connection: that connection is ended, not the session
+	// (d) the good session's own phone number on other connections, one after the other: each of them is ended
+	// and the session stays registered (the SECOND claimant is refused too: the first refusal did not delete the key)
 	for _, v := range []bool{false, true} {
-		s := &script{kind: "808", param: pa, class: "duplicate-key"}
-		s.g2019 = v
-		s.gBcd = nextPhone(v)
-		s.good808()
-		k := s.hostile()
-		s.O(k)
-		s.D(k, Frame808(0x0002, v, s.gBcd, 50, nil))
-		s.probe(k, v, s.gBcd)
-		finish(s)
+		for _, nclaim := range []int{1, 2, 3} {
+			s := &script{kind: "808", param: pa, class: "duplicate-key"}
+			s.g2019 = v
+			s.gBcd = nextPhone(v)
+			s.good808()
+			for j := 0; j < nclaim; j++ {
+				k := s.hostile()
+				s.O(k)
+				if j%2 == 1 {
+					s.D(k, Frame808(0x0100, v, s.gBcd, 40, make([]byte, 37)))
+				} else {
+					s.D(k, Frame808(0x0002, v, s.gBcd, 50, nil))
+				}
+				s.probe(k, v, s.gBcd)
+				if s.expK == nil {
+					s.expK = map[int]string{}
+				}
+				s.expK[k] = "closed"
+			}
+			finish(s)
+		}
+	}
+	// (d1) a terminal that disconnects (FIN or RST) and comes back on a new connection under the same number is a
+	// new session: its key was released by the teardown of the old connection
+	for _, v := range []bool{false, true} {
+		for _, rst := range []bool{false, true} {
+			s := newScript("reconnect-same-key")
+			bcd := nextPhone(v)
+			k1 := s.hostile()
+			s.O(k1)
+			s.D(k1, Frame808(0x0100, v, bcd, 1, make([]byte, 37)))
+			s.probe(k1, v, bcd)
+			if rst {
+				s.R(k1)
+			} else {
+				s.F(k1)
+			}
+			s.toks = append(s.toks, "W")
+			k2 := s.hostile()
+			s.O(k2)
+			s.D(k2, Frame808(0x0002, v, bcd, 9, nil))
+			s.probe(k2, v, bcd)
+			s.expK = map[int]string{k2: "open"}
+			finish(s)
+		}
+	}
+	// (d2) a client that pipelines many valid frames of reply-bearing ids in one write and then goes away without
+	// taking the answers (RST, or FIN with the answers still coming): the writer's conn.Write fails while the reader
+	// is still handing it messages; the failing connection must not take the process down
+	bursts := []int{50, 400, 1000}
+	if !c.Quick() {
+		bursts = []int{50, 120, 400, 1000, 2000, 5000}
+	}
+	for _, n := range bursts {
+		for _, id := range []uint16{0x0002, 0x0200, 0x0100} {
+			for _, end := range []string{"rst", "fin", "fin-after-more"} {
+				if !left() {
+					break
+				}
+				v := n%100 == 0 && id != 0x0002
+				s := newScript("pipelined-burst")
+				k := s.hostile()
+				bcd := nextPhone(v)
+				var body []byte
+				switch id {
+				case 0x0200:
+					body = make([]byte, 28)
+				case 0x0100:
+					body = make([]byte, 37)
+				}
+				var b []byte
+				for i := 0; i < n; i++ {
+					b = append(b, Frame808(id, v, bcd, uint16(i), body)...)
+				}
+				s.O(k)
+				s.Dwhole(k, b)
+				switch end {
+				case "rst":
+					s.R(k)
+				case "fin":
+					s.F(k)
+				default:
+					s.Dwhole(k, b[:len(b)/2])
+					s.F(k)
+				}
+				finish(s)
+			}
+		}
 	}
 	// (e) random streams and mutated valid conversations
 	nRand := 140
